@@ -412,3 +412,8 @@ MUTANTS = [
     dict(name='split_skips_op_after_jump', file=BLOCKS_PY, old="      blocks.append(prev_block)\n      code = []\n    i += 1\n", new="      blocks.append(prev_block)\n      code = []\n      i += 1\n    i += 1\n"),
     dict(name='split_targets_only_jumps', file=BLOCKS_PY, old="  targets = {op.target for op in bytecode if op.target}\n", new="  targets = {op.target for op in bytecode if op.target and op.does_jump()}\n"),
 ]
+
+
+def extra_obligations(repo):
+  from engine import frames
+  return frames.equality_frames('C16', repo, [('pytype/pyc/opcodes.py', 'Opcode', 'identity'), ('pytype/blocks/blocks.py', 'Block', 'identity')])
